@@ -1,316 +1,27 @@
-(* Soundness of the flow guard of Lang/ConstFlow.v: when the transpiler bakes in, at every fold site, exactly what the
-   flow-sensitive ghost environment justifies, the residual program produces on every control-flow path the outputs of
-   the source program; the same for a function body parsed at its def and run at a later call with arbitrary
-   argument values. *)
+(* Function definitions (Lang/ConstFlow.v): a body parsed at its def and run at a later call with arbitrary argument
+   values produces what Python produces - for the repaired transpiler, whatever the module does to its constants between
+   the def and the call.  (The flow guard that used to live here is gone with the ghost environment: see ConstFlow.v.) *)
 From Coq Require Import ZArith QArith List Bool Lia Arith.
 From RV Require Import Base.Wire Base.Text Lang.PyAst Lang.PySem Gen.SafeCasts Lang.ConstEval Lang.ConstEnv Lang.ConstFlow
   Proofs.ConstEvalP Proofs.ConstEnvP Proofs.ConstEnvFreshP.
 Import ListNotations.
 Open Scope Z_scope.
 
-(* ---------------- unfolding ---------------- *)
-Lemma cstep_if a b te st ge gst : cstep (SIf a b) te st ge gst =
-  match cblock a te st ge gst with
-  | Some (te1, st1, r1, _, _, f1) =>
-      match cblock b te st1 ge gst with
-      | Some (te2, st2, r2, _, _, f2) =>
-          Some (promote (promote te te1 []) te2 [], st2, [SIf r1 r2], mark_all (writes (SIf a b)) ge, gst, f1 && f2)
-      | None => None end
-  | None => None end.
-Proof. reflexivity. Qed.
-Lemma cstep_while a te st ge gst : cstep (SWhile a) te st ge gst =
-  match cblock a te st (mark_all (writes (SWhile a)) ge) gst with
-  | Some (te1, st1, r1, _, _, f1) => Some (promote te te1 [], st1, [SWhile r1], mark_all (writes (SWhile a)) ge, gst, f1)
-  | None => None end.
-Proof. reflexivity. Qed.
-Lemma cstep_for x a te st ge gst : cstep (SFor x a) te st ge gst =
-  match cblock a ((x, TMark) :: te) st (mark_all (writes (SFor x a)) ge) gst with
-  | Some (te1, st1, r1, _, _, f1) =>
-      Some (promote te te1 [x], st1, [SFor x r1], mark_all (writes (SFor x a)) ge, gst, f1 && negb (tmem x safe_name_references))
-  | None => None end.
-Proof. reflexivity. Qed.
-Lemma cstep_simple s te st ge gst : simple s -> cstep s te st ge gst = csimple s te st ge gst.
-Proof. destruct s; cbn; intro H; try contradiction; reflexivity. Qed.
-Lemma cblock_cons s r te st ge gst : cblock (s :: r) te st ge gst =
-  match cstep s te st ge gst with
-  | Some (te1, st1, r1, ge1, gst1, f1) =>
-      match cblock r te1 st1 ge1 gst1 with
-      | Some (te2, st2, r2, ge2, gst2, f2) => Some (te2, st2, r1 ++ r2, ge2, gst2, f1 && f2)
-      | None => None end
-  | None => None end.
-Proof. reflexivity. Qed.
-
-(* ---------------- equality of baked-in constants ---------------- *)
-Lemma scalar_eqb_eq a b : scalar_eqb a b = true -> a = b.
-Proof.
-  destruct a, b; cbn; try discriminate; intro H.
-  - apply Z.eqb_eq in H. congruence.
-  - apply Bool.eqb_prop in H. congruence.
-  - apply andb_true_iff in H. destruct H as [H1 H2]. apply Z.eqb_eq in H1. apply Pos.eqb_eq in H2.
-    destruct q, q0. cbn in *. congruence.
-Qed.
-Lemma scalars_eqb_eq l : forall m, scalars_eqb l m = true -> l = m.
-Proof.
-  induction l as [|a l IH]; intros [|b m]; cbn; try discriminate; [reflexivity|].
-  intro H. apply andb_true_iff in H. destruct H as [H1 H2].
-  apply scalar_eqb_eq in H1. apply IH in H2. congruence.
-Qed.
-Lemma emit_eqb_eq a b : emit_eqb a b = true -> a = b.
-Proof.
-  destruct a, b; cbn [emit_eqb]; intro H;
-    try (apply scalar_eqb_eq; exact H); apply scalars_eqb_eq in H; congruence.
-Qed.
-
-Definition shape (s : stmt) (r : list stmt) : Prop := r = [s] \/ exists v, r = [SEmit v].
-
-Ltac crack H :=
-  repeat (match type of H with
-          | context [match ?x with _ => _ end] => destruct x eqn:?
-          end; try discriminate H).
-
-Lemma tsimple_shape s te st te1 st1 r1 f : tsimple s te st = Some (te1, st1, r1, f) -> shape s r1.
-Proof.
-  intro H. destruct s as [x e|x e|x e|o|v|a b|a|x a|x op e]; cbn [tsimple] in H; try discriminate.
-  - crack H; inversion H; subst; left; reflexivity.
-  - crack H; inversion H; subst; left; reflexivity.
-  - crack H; inversion H; subst; left; reflexivity.
-  - destruct o; crack H; inversion H; subst; first [left; reflexivity | right; eexists; reflexivity].
-  - inversion H; subst. left; reflexivity.
-  - inversion H; subst. left; reflexivity.
-Qed.
-
-Lemma same_res_eq s r g : shape s r -> shape s g -> same_res r g = true -> r = g.
-Proof.
-  intros [->|[v ->]] [->|[w ->]] H; try reflexivity.
-  - destruct s; cbn in H; try discriminate. apply emit_eqb_eq in H. subst. reflexivity.
-  - destruct s; cbn in H; try discriminate. apply emit_eqb_eq in H. subst. reflexivity.
-  - cbn in H. apply emit_eqb_eq in H. subst. reflexivity.
-Qed.
-
-(* ---------------- the transpiler half of cblock is tblock ---------------- *)
-Definition proj_stmt (s : stmt) : Prop := forall te st ge gst te' st' res ge' gst' f,
-  cstep s te st ge gst = Some (te', st', res, ge', gst', f) -> exists f0, tstep s te st = Some (te', st', res, f0).
-Definition proj_blk (b : list stmt) : Prop := forall te st ge gst te' st' res ge' gst' f,
-  cblock b te st ge gst = Some (te', st', res, ge', gst', f) -> exists f0, tblock b te st = Some (te', st', res, f0).
-Lemma proj_block b : Forall proj_stmt b -> proj_blk b.
-Proof.
-  induction 1 as [|s r Hs _ IH]; intros te st ge gst te' st' res ge' gst' f H.
-  - cbn in H. inversion H; subst. eexists. reflexivity.
-  - rewrite cblock_cons in H.
-    destruct (cstep s te st ge gst) as [[[[[[te1 st1] r1] ge1] gst1] f1]|] eqn:E1; [|discriminate].
-    destruct (cblock r te1 st1 ge1 gst1) as [[[[[[te2 st2] r2] ge2] gst2] f2]|] eqn:E2; [|discriminate].
-    inversion H; subst.
-    destruct (Hs _ _ _ _ _ _ _ _ _ _ E1) as (fa & T1). destruct (IH _ _ _ _ _ _ _ _ _ _ E2) as (fb & T2).
-    rewrite tblock_cons, T1, T2. eexists. reflexivity.
-Qed.
-Lemma proj_all : forall s, proj_stmt s.
-Proof.
-  apply stmt_ind'.
-  1-5, 9: (intros; intros te st ge gst te' st' res ge' gst' f H; rewrite cstep_simple in H by exact I;
-           unfold csimple in H; rewrite tstep_simple by exact I;
-           match type of H with context [tsimple ?s te st] => destruct (tsimple s te st) as [[[[te1 st1] r1] f1]|]; [|discriminate] end;
-           match type of H with context [tsimple ?s ge gst] => destruct (tsimple s ge gst) as [[[[ge1 gst1] g1] gf]|] end;
-           inversion H; subst; eexists; reflexivity).
-  - intros a b Fa Fb te st ge gst te' st' res ge' gst' f H. rewrite cstep_if in H.
-    destruct (cblock a te st ge gst) as [[[[[[te1 st1] r1] ge1] gst1] f1]|] eqn:E1; [|discriminate].
-    destruct (cblock b te st1 ge gst) as [[[[[[te2 st2] r2] ge2] gst2] f2]|] eqn:E2; [|discriminate].
-    inversion H; subst.
-    destruct (proj_block a Fa _ _ _ _ _ _ _ _ _ _ E1) as (fa & T1). destruct (proj_block b Fb _ _ _ _ _ _ _ _ _ _ E2) as (fb & T2).
-    rewrite tstep_if, T1, T2. eexists. reflexivity.
-  - intros a Fa te st ge gst te' st' res ge' gst' f H. rewrite cstep_while in H.
-    destruct (cblock a te st (mark_all (writes (SWhile a)) ge) gst) as [[[[[[te1 st1] r1] ge1] gst1] f1]|] eqn:E1; [|discriminate].
-    inversion H; subst.
-    destruct (proj_block a Fa _ _ _ _ _ _ _ _ _ _ E1) as (fa & T1). rewrite tstep_while, T1. eexists. reflexivity.
-  - intros x a Fa te st ge gst te' st' res ge' gst' f H. rewrite cstep_for in H.
-    destruct (cblock a ((x, TMark) :: te) st (mark_all (writes (SFor x a)) ge) gst) as [[[[[[te1 st1] r1] ge1] gst1] f1]|] eqn:E1; [|discriminate].
-    inversion H; subst.
-    destruct (proj_block a Fa _ _ _ _ _ _ _ _ _ _ E1) as (fa & T1). rewrite tstep_for, T1. eexists. reflexivity.
-Qed.
-Lemma proj_blocks b : proj_blk b.
-Proof. apply proj_block. apply Forall_forall. intros s _. apply proj_all. Qed.
-
-(* ---------------- marking ---------------- *)
-Lemma mark_all_cons a ws te : mark_all (a :: ws) te = (a, TMark) :: mark_all ws te.
-Proof. reflexivity. Qed.
-Lemma mark_all_in ws te x : In x ws -> tlookup x (mark_all ws te) = Some TMark.
-Proof.
-  induction ws as [|a ws IH]; [intros []|]. intro H. rewrite mark_all_cons.
-  destruct (teq_dec x a) as [->|N]; [apply tl_eq|]. rewrite tl_ne by exact N. apply IH. destruct H as [H|H]; [congruence|exact H].
-Qed.
-Lemma mark_all_notin ws te x : ~ In x ws -> tlookup x (mark_all ws te) = tlookup x te.
-Proof.
-  induction ws as [|a ws IH]; [reflexivity|]. intro H. rewrite mark_all_cons.
-  rewrite tl_ne; [apply IH; intro; apply H; right; assumption|]. intro; subst; apply H; left; reflexivity.
-Qed.
 Lemma wf_mark_all ws te st : wf te st -> wf (mark_all ws te) st.
 Proof. intro W. induction ws as [|a ws IH]; [exact W|]. rewrite mark_all_cons. apply wf_cons_mark. exact IH. Qed.
-Lemma ragrees_mark_frame ws ge gst rho rho1 :
-  ragrees (mark_all ws ge) gst rho -> (forall x, ~ In x ws -> lookup x rho1 = lookup x rho) -> ragrees (mark_all ws ge) gst rho1.
+
+Lemma dups_app_in l1 : forall l2 x, In x l1 -> In x l2 -> In x (dups (l1 ++ l2)).
 Proof.
-  intros R F x. destruct (in_dec teq_dec x ws) as [I|N].
-  - rewrite (mark_all_in _ _ _ I). exact Logic.I.
-  - specialize (R x). rewrite (F x N). exact R.
-Qed.
-Lemma ragrees_mark ws ge gst rho : ragrees ge gst rho -> ragrees (mark_all ws ge) gst rho.
-Proof.
-  intros R x. destruct (in_dec teq_dec x ws) as [I|N].
-  - rewrite (mark_all_in _ _ _ I). exact Logic.I.
-  - rewrite (mark_all_notin _ _ _ N). apply R.
+  induction l1 as [|a r IH]; intros l2 x H1 H2; [destruct H1|]. cbn [app dups].
+  destruct H1 as [->|H1].
+  - assert (T : tmem x (r ++ l2) = true) by (apply tmem_in, in_or_app; right; exact H2). rewrite T. left. reflexivity.
+  - destruct (tmem a (r ++ l2)); [right|]; apply IH; assumption.
 Qed.
 
-(* ---------------- the simulation ---------------- *)
-Definition gconcl (res : list stmt) orc rho (rho' : env) (out : list pval) (orc' : list nat) ge' gst' : Prop :=
-  rblock res orc rho = Some (rho', out, orc') /\ wf ge' gst' /\ ragrees ge' gst' rho' /\ unshadowed rho'.
-Definition gsim_stmt (s : stmt) : Prop := forall te st ge gst te' st' res ge' gst' orc rho rho' out orc',
-  cstep s te st ge gst = Some (te', st', res, ge', gst', true) -> wf ge gst -> ragrees ge gst rho -> unshadowed rho ->
-  rstep s orc rho = Some (rho', out, orc') -> gconcl res orc rho rho' out orc' ge' gst'.
-Definition gsim_blk (b : list stmt) : Prop := forall te st ge gst te' st' res ge' gst' orc rho rho' out orc',
-  cblock b te st ge gst = Some (te', st', res, ge', gst', true) -> wf ge gst -> ragrees ge gst rho -> unshadowed rho ->
-  rblock b orc rho = Some (rho', out, orc') -> gconcl res orc rho rho' out orc' ge' gst'.
-
-Lemma gsim_block b : Forall gsim_stmt b -> gsim_blk b.
-Proof.
-  induction 1 as [|s r Hs _ IH]; intros te st ge gst te' st' res ge' gst' orc rho rho' out orc' H W R U Hr.
-  - cbn in H. inversion H; subst. rewrite rblock_nil in Hr. inversion Hr; subst.
-    split; [apply rblock_nil|]. split; [assumption|split; assumption].
-  - rewrite cblock_cons in H.
-    destruct (cstep s te st ge gst) as [[[[[[te1 st1] r1] ge1] gst1] f1]|] eqn:E1; [|discriminate].
-    destruct (cblock r te1 st1 ge1 gst1) as [[[[[[te2 st2] r2] ge2] gst2] f2]|] eqn:E2; [|discriminate].
-    inversion H; subst. clear H.
-    match goal with HF : _ && _ = true |- _ => apply andb_true_iff in HF; destruct HF as [-> ->] end.
-    rewrite rblock_cons in Hr.
-    destruct (rstep s orc rho) as [[[rho1 o1] orc1]|] eqn:R1; [|discriminate].
-    destruct (rblock r orc1 rho1) as [[[rho2 o2] orc2]|] eqn:R2; [|discriminate].
-    inversion Hr; subst. clear Hr.
-    destruct (Hs _ _ _ _ _ _ _ _ _ _ _ _ _ _ E1 W R U R1) as (S1 & W1 & RA1 & U1).
-    destruct (IH _ _ _ _ _ _ _ _ _ _ _ _ _ _ E2 W1 RA1 U1 R2) as (S2 & W2 & RA2 & U2).
-    split; [|split; [assumption|split; assumption]]. rewrite rblock_app, S1, S2. reflexivity.
-Qed.
-
-Lemma gsim_simple s : simple s -> gsim_stmt s.
-Proof.
-  intros Hs te st ge gst te' st' res ge' gst' orc rho rho' out orc' H W R U Hr.
-  rewrite cstep_simple in H by exact Hs. unfold csimple in H.
-  destruct (tsimple s te st) as [[[[te1 st1] r1] f1]|] eqn:T1; [|discriminate].
-  destruct (tsimple s ge gst) as [[[[ge1 gst1] g1] gf]|] eqn:T2; [|inversion H].
-  inversion H; subst. clear H.
-  match goal with HF : _ && _ = true |- _ =>
-    apply andb_true_iff in HF; destruct HF as [HF2 SR]; apply andb_true_iff in HF2; destruct HF2 as [-> _] end.
-  assert (T2' : tstep s ge gst = Some (ge', gst', g1, true)) by (rewrite tstep_simple by exact Hs; exact T2).
-  destruct (sim_simple s Hs _ _ _ _ _ _ _ _ _ _ T2' W R U Hr) as (S1 & RA & U1).
-  pose proof (tframe_simple s Hs _ _ _ _ _ _ T2' W) as (W1 & _).
-  rewrite (same_res_eq s res g1 (tsimple_shape _ _ _ _ _ _ _ T1) (tsimple_shape _ _ _ _ _ _ _ T2) SR).
-  split; [exact S1|]. split; [assumption|split; assumption].
-Qed.
-
-Lemma gwiter a te st ge gst ws te1 st1 r1 ge1 gst1 :
-  gsim_blk a -> cblock a te st (mark_all ws ge) gst = Some (te1, st1, r1, ge1, gst1, true) -> wf (mark_all ws ge) gst ->
-  (forall x, In x (writes_block a) -> In x ws) ->
-  forall k orc rho rho' out orc', ragrees (mark_all ws ge) gst rho -> unshadowed rho ->
-    witer a k orc rho = Some (rho', out, orc') -> witer r1 k orc rho = Some (rho', out, orc') /\ unshadowed rho'.
-Proof.
-  intros Sa E W Sub. induction k as [|k IH]; intros orc rho rho' out orc' R U H; cbn in H |- *.
-  - inversion H; subst. split; [reflexivity|exact U].
-  - destruct (rblock a orc rho) as [[[rho1 o1] orc1]|] eqn:R1; [|discriminate].
-    destruct (witer a k orc1 rho1) as [[[rho2 o2] orc2]|] eqn:R2; [|discriminate].
-    injection H as <- <- <-.
-    destruct (Sa _ _ _ _ _ _ _ _ _ _ _ _ _ _ E W R U R1) as (S1 & _ & _ & U1).
-    assert (RA1 : ragrees (mark_all ws ge) gst rho1).
-    { eapply ragrees_mark_frame; [exact R|]. intros x Nx. apply (rframe_blocks a _ _ _ _ _ R1 x). intro I. apply Nx, Sub, I. }
-    destruct (IH _ _ _ _ _ RA1 U1 R2) as (S2 & U2).
-    rewrite S1, S2. split; [reflexivity|exact U2].
-Qed.
-Lemma gfiter x a te st ge gst ws te1 st1 r1 ge1 gst1 :
-  gsim_blk a -> cblock a te st (mark_all ws ge) gst = Some (te1, st1, r1, ge1, gst1, true) -> wf (mark_all ws ge) gst ->
-  In x ws -> (forall y, In y (writes_block a) -> In y ws) -> tmem x safe_name_references = false ->
-  forall k i orc rho rho' out orc', ragrees (mark_all ws ge) gst rho -> unshadowed rho ->
-    fiter x a k i orc rho = Some (rho', out, orc') -> fiter x r1 k i orc rho = Some (rho', out, orc') /\ unshadowed rho'.
-Proof.
-  intros Sa E W Ix Sub NS. induction k as [|k IH]; intros i orc rho rho' out orc' R U H; cbn in H |- *.
-  - inversion H; subst. split; [reflexivity|exact U].
-  - destruct (rblock a orc ((x, VInt i) :: rho)) as [[[rho1 o1] orc1]|] eqn:R1; [|discriminate].
-    destruct (fiter x a k (i + 1) orc1 rho1) as [[[rho2 o2] orc2]|] eqn:R2; [|discriminate].
-    injection H as <- <- <-.
-    assert (FX : forall y, ~ In y ws -> lookup y ((x, VInt i) :: rho) = lookup y rho).
-    { intros y Ny. unfold lookup. apply tl_ne. intro; subst. apply Ny, Ix. }
-    assert (Rx : ragrees (mark_all ws ge) gst ((x, VInt i) :: rho)) by (eapply ragrees_mark_frame; [exact R|exact FX]).
-    destruct (Sa _ _ _ _ _ _ _ _ _ _ _ _ _ _ E W Rx (unshadowed_cons _ _ _ U NS) R1) as (S1 & _ & _ & U1).
-    assert (RA1 : ragrees (mark_all ws ge) gst rho1).
-    { eapply ragrees_mark_frame; [exact R|]. intros y Ny.
-      rewrite (rframe_blocks a _ _ _ _ _ R1 y); [apply FX, Ny|]. intro I. apply Ny, Sub, I. }
-    destruct (IH _ _ _ _ _ _ RA1 U1 R2) as (S2 & U2).
-    rewrite S1, S2. split; [reflexivity|exact U2].
-Qed.
-
-Lemma gsim_all : forall s, gsim_stmt s.
-Proof.
-  apply stmt_ind'; try (intros; apply gsim_simple; exact I).
-  - (* if *)
-    intros a b Fa Fb te st ge gst te' st' res ge' gst' orc rho rho' out orc' H W R U Hr.
-    pose proof (rframe_all (SIf a b) _ _ _ _ _ Hr) as FR.
-    rewrite cstep_if in H.
-    destruct (cblock a te st ge gst) as [[[[[[te1 st1] r1] ge1] gst1] f1]|] eqn:E1; [|discriminate].
-    destruct (cblock b te st1 ge gst) as [[[[[[te2 st2] r2] ge2] gst2] f2]|] eqn:E2; [|discriminate].
-    inversion H; subst. clear H.
-    match goal with HF : _ && _ = true |- _ => apply andb_true_iff in HF; destruct HF as [-> ->] end.
-    assert (TAIL : wf (mark_all (writes (SIf a b)) ge) gst' /\ ragrees (mark_all (writes (SIf a b)) ge) gst' rho').
-    { split; [apply wf_mark_all; exact W|]. eapply ragrees_mark_frame; [apply ragrees_mark; exact R|exact FR]. }
-    destruct TAIL as [TW TR].
-    rewrite rstep_if in Hr. destruct orc as [|[|k] orc1]; [discriminate| |].
-    + destruct (gsim_block b Fb _ _ _ _ _ _ _ _ _ _ _ _ _ _ E2 W R U Hr) as (S2 & _ & _ & U2).
-      split; [rewrite rblock_single, rstep_if; exact S2|]. split; [assumption|split; assumption].
-    + destruct (gsim_block a Fa _ _ _ _ _ _ _ _ _ _ _ _ _ _ E1 W R U Hr) as (S1 & _ & _ & U1).
-      split; [rewrite rblock_single, rstep_if; exact S1|]. split; [assumption|split; assumption].
-  - (* while *)
-    intros a Fa te st ge gst te' st' res ge' gst' orc rho rho' out orc' H W R U Hr.
-    pose proof (rframe_all (SWhile a) _ _ _ _ _ Hr) as FR.
-    rewrite cstep_while in H.
-    destruct (cblock a te st (mark_all (writes (SWhile a)) ge) gst) as [[[[[[te1 st1] r1] ge1] gst1] f1]|] eqn:E1; [|discriminate].
-    inversion H; subst. clear H.
-    assert (Wh : wf (mark_all (writes (SWhile a)) ge) gst') by (apply wf_mark_all; exact W).
-    assert (Rh : ragrees (mark_all (writes (SWhile a)) ge) gst' rho) by (apply ragrees_mark; exact R).
-    rewrite rstep_while in Hr. destruct orc as [|k orc1]; [discriminate|].
-    destruct (gwiter a _ _ _ _ _ _ _ _ _ _ (gsim_block a Fa) E1 Wh (fun x I => I) _ _ _ _ _ _ Rh U Hr) as (S1 & U1).
-    split; [rewrite rblock_single, rstep_while; exact S1|]. split; [exact Wh|]. split; [|exact U1].
-    exact (ragrees_mark_frame (writes (SWhile a)) ge gst' rho rho' Rh FR).
-  - (* for *)
-    intros x a Fa te st ge gst te' st' res ge' gst' orc rho rho' out orc' H W R U Hr.
-    pose proof (rframe_all (SFor x a) _ _ _ _ _ Hr) as FR.
-    rewrite cstep_for in H.
-    destruct (cblock a ((x, TMark) :: te) st (mark_all (writes (SFor x a)) ge) gst) as [[[[[[te1 st1] r1] ge1] gst1] f1]|] eqn:E1; [|discriminate].
-    inversion H; subst. clear H.
-    match goal with HF : _ && _ = true |- _ => apply andb_true_iff in HF; destruct HF as [-> NS] end.
-    apply negb_true_iff in NS.
-    assert (Wh : wf (mark_all (writes (SFor x a)) ge) gst') by (apply wf_mark_all; exact W).
-    assert (Rh : ragrees (mark_all (writes (SFor x a)) ge) gst' rho) by (apply ragrees_mark; exact R).
-    rewrite rstep_for in Hr. destruct orc as [|k orc1]; [discriminate|].
-    assert (Ix : In x (writes (SFor x a))) by (rewrite writes_for; left; reflexivity).
-    assert (Sub : forall y, In y (writes_block a) -> In y (writes (SFor x a))) by (intros y I; rewrite writes_for; right; exact I).
-    destruct (gfiter x a _ _ _ _ _ _ _ _ _ _ (gsim_block a Fa) E1 Wh Ix Sub NS _ _ _ _ _ _ _ Rh U Hr) as (S1 & U1).
-    split; [rewrite rblock_single, rstep_for; exact S1|]. split; [exact Wh|]. split; [|exact U1].
-    exact (ragrees_mark_frame (writes (SFor x a)) ge gst' rho rho' Rh FR).
-Qed.
-Lemma gsim_blocks b : gsim_blk b.
-Proof. apply gsim_block. apply Forall_forall. intros s _. apply gsim_all. Qed.
-
-Lemma wf_nil : wf [] [].
-Proof. split; [|split]; intros; cbn in *; discriminate. Qed.
-Lemma ragrees_nil : ragrees [] [] [].
-Proof. intro x. exact I. Qed.
-Lemma unshadowed_nil : unshadowed [].
-Proof. intros f _. reflexivity. Qed.
-
-(* ---------------- the theorems ---------------- *)
-Theorem flow_sound : forall p orc out,
-  flow_ok p = true -> python_outputs p orc = Some out -> firmware_outputs p orc = Some out.
-Proof.
-  intros p orc out F P. unfold flow_ok in F. unfold python_outputs in P. unfold firmware_outputs.
-  destruct (cblock p [] [] [] []) as [[[[[[te st] res] ge] gst] f]|] eqn:E; [|discriminate]. subst f.
-  destruct (proj_blocks p _ _ _ _ _ _ _ _ _ _ E) as (f0 & T). rewrite T.
-  destruct (rblock p orc []) as [[[rho' out'] orc']|] eqn:Rp; [|discriminate]. inversion P; subst out'.
-  destruct (gsim_blocks p _ _ _ _ _ _ _ _ _ _ _ _ _ _ E wf_nil ragrees_nil unshadowed_nil Rp) as (S & _).
-  rewrite S. reflexivity.
-Qed.
+(* a name the dict binds after a block was written by the block or was bound before *)
+Lemma tblock_names vol b te st te' st' res f y :
+  tblock vol b te st = Some (te', st', res, f) -> wf te st -> In y (map fst te') -> In y (map fst te) \/ In y (writes_block b).
+Proof. intros H W I. destruct (tframe_blocks b _ _ _ _ _ _ H W) as (_ & _ & _ & _ & E). apply E. exact I. Qed.
 
 Lemma lookup_params_notin ps : forall vals rho x, ~ In x ps -> lookup x (bind_params ps vals rho) = lookup x rho.
 Proof.
@@ -326,34 +37,41 @@ Proof.
   apply negb_true_iff in N1. apply unshadowed_cons; [apply IH; assumption|exact N1].
 Qed.
 
-Theorem def_sound : forall prefix ps body mid vals orc outs,
-  def_ok prefix ps body mid = true ->
+Theorem def_sound : forall prefix ps body mid post vals orc outs,
+  def_ok prefix ps body mid post = true ->
   python_call_outputs prefix ps body mid vals orc = Some outs ->
-  firmware_call_outputs prefix ps body mid vals orc = Some outs.
+  firmware_call_outputs prefix ps body mid post vals orc = Some outs.
 Proof.
-  intros prefix ps body mid vals orc outs F P. unfold def_ok in F.
-  destruct (cblock prefix [] [] [] []) as [[[[[[te st] rp] ge] gst] fp]|] eqn:E0; [|discriminate].
-  destruct (cblock body (mark_all ps te) st (mark_all (ps ++ writes_block mid) ge) gst) as [[[[[[teb stb] rb] geb] gstb] fb]|] eqn:E1; [|discriminate].
-  destruct (cblock mid te stb ge gst) as [[[[[[te2 st2] rm] ge2] gst2] fm]|] eqn:E2; [|discriminate].
+  intros prefix ps body mid post vals orc outs F P. unfold def_ok in F.
+  set (rb0 := rebound_names prefix body mid post) in *. set (fw := fn_written ps body) in *.
+  destruct (tblock [] prefix [] []) as [[[[te st] rp] fp]|] eqn:E0; [|discriminate].
+  destruct (tblock [] body (mark_all ps (forget rb0 te)) st) as [[[[teb stb] rb] fb]|] eqn:E1; [|discriminate].
+  destruct (tblock fw mid (forget fw te) st) as [[[[te2 st2] rm] fm]|] eqn:E2; [|discriminate].
   apply andb_true_iff in F. destruct F as [F NS]. apply andb_true_iff in F. destruct F as [F ->].
   apply andb_true_iff in F. destruct F as [-> ->].
-  destruct (proj_blocks _ _ _ _ _ _ _ _ _ _ _ E0) as (f0 & T0).
-  destruct (proj_blocks _ _ _ _ _ _ _ _ _ _ _ E1) as (f1 & T1).
-  destruct (proj_blocks _ _ _ _ _ _ _ _ _ _ _ E2) as (f2 & T2).
-  unfold firmware_call_outputs, tdef. rewrite T0, T1, T2.
+  unfold firmware_call_outputs, tdef. fold rb0. fold fw. rewrite E0, E1, E2.
   unfold python_call_outputs, run_call in P. unfold run_call.
   rewrite rblock_app in P.
   destruct (rblock prefix orc []) as [[[rho0 oa] orca]|] eqn:R0; [|discriminate].
   destruct (rblock mid orca rho0) as [[[rho ob] orc1]|] eqn:R1; [|discriminate].
   destruct (rblock body orc1 (bind_params ps vals rho)) as [[[rhob o2] orc2]|] eqn:R2; [|discriminate].
-  destruct (gsim_blocks prefix _ _ _ _ _ _ _ _ _ _ _ _ _ _ E0 wf_nil ragrees_nil unshadowed_nil R0) as (S0 & W0 & RA0 & U0).
-  destruct (gsim_blocks mid _ _ _ _ _ _ _ _ _ _ _ _ _ _ E2 W0 RA0 U0 R1) as (S1 & _ & _ & U1).
-  assert (Wb : wf (mark_all (ps ++ writes_block mid) ge) gst) by (apply wf_mark_all; exact W0).
-  assert (Rb : ragrees (mark_all (ps ++ writes_block mid) ge) gst (bind_params ps vals rho)).
-  { eapply ragrees_mark_frame; [apply ragrees_mark; exact RA0|]. intros x Nx.
-    rewrite lookup_params_notin by (intro I; apply Nx, in_or_app; left; exact I).
-    apply (rframe_blocks mid _ _ _ _ _ R1 x). intro I. apply Nx, in_or_app. right. exact I. }
-  destruct (gsim_blocks body _ _ _ _ _ _ _ _ _ _ _ _ _ _ E1 Wb Rb (unshadowed_params _ _ _ NS U1) R2) as (S2 & _).
+  destruct (sim_blocks prefix _ _ _ _ _ _ _ _ _ _ E0 wf_nil ragrees_nil unshadowed_nil R0) as (S0 & RA0 & U0).
+  assert (W0 : wf te st) by (apply (tframe_blocks prefix _ _ _ _ _ _ E0 wf_nil)).
+  destruct (sim_blocks mid _ _ _ _ _ _ _ _ _ _ E2 (wf_forget fw _ _ W0) (ragrees_forget fw _ _ _ RA0) U0 R1) as (S1 & _ & U1).
+  assert (Wb : wf (mark_all ps (forget rb0 te)) st) by (apply wf_mark_all, wf_forget; exact W0).
+  assert (Rb : ragrees (mark_all ps (forget rb0 te)) st (bind_params ps vals rho)).
+  { intro x. destruct (in_dec teq_dec x ps) as [Ip|Np]; [rewrite (mark_all_in _ _ _ Ip); exact I|].
+    rewrite (mark_all_notin _ _ _ Np), (lookup_params_notin ps vals rho x Np).
+    destruct (in_dec teq_dec x rb0) as [Ir|Nr].
+    - destruct (forget_in rb0 te x Ir) as [Q|Q]; rewrite Q; exact I.
+    - rewrite (forget_notin _ _ _ Nr). specialize (RA0 x).
+      destruct (tlookup x te) as [[v|l|]|] eqn:Lx; try exact I;
+        (assert (Nm : ~ In x (writes_block mid));
+         [ intro Im; apply Nr; unfold rb0, rebound_names; apply dups_app_in;
+           [ destruct (tblock_names [] prefix [] [] te st rp true x E0 wf_nil (tl_in _ _ _ Lx)) as [[]|Q]; exact Q
+           | apply in_or_app; right; apply in_or_app; left; exact Im ]
+         | rewrite (rframe_blocks mid _ _ _ _ _ R1 x Nm); exact RA0 ]). }
+  destruct (sim_blocks body _ _ _ _ _ _ _ _ _ _ E1 Wb Rb (unshadowed_params _ _ _ NS U1) R2) as (S2 & _).
   rewrite rblock_app, S0, S1, S2. exact P.
 Qed.
 
@@ -361,7 +79,7 @@ Qed.
 Definition n_msg : ident := [109;115;103].
 Definition n_q : ident := [113].
 (* an if / elif / else chain (an if nested in the else branch): the first branch re-assigns msg and pat, the later
-   branches fold len(msg) and flash_pattern(pat) - from the snapshot *)
+   branches fold len(msg) and flash_pattern(pat) - from the snapshot; after the chain msg is a run-time value *)
 Definition w_chain : list stmt :=
   [ SAssign n_msg (EStr [105;100;108;101]);
     SAssign n_pat (EList [EInt 1; EInt 0; EInt 1; EInt 0]);
@@ -371,50 +89,76 @@ Definition w_chain : list stmt :=
              [SObs (OFlash n_pat); SObs (OLen n_msg)]];
     SObs (OVal n_msg) ].
 Lemma chain_nonvacuous :
-  flow_ok w_chain = true /\ is_fresh w_chain = false /\
+  is_fresh w_chain = true /\
   python_outputs w_chain [1%nat] = Some [VList [VInt 1; VInt 1; VInt 128; VInt 0]; VInt 10; VStr [111;118;101;114;104;101;97;116;101;100]] /\
   python_outputs w_chain [0%nat; 1%nat] = Some [VList [VInt 1; VInt 0; VInt 1; VInt 0]; VInt 7; VStr [119;97;114;109;105;110;103]] /\
-  python_outputs w_chain [0%nat; 0%nat] = Some [VList [VInt 1; VInt 0; VInt 1; VInt 0]; VInt 4; VStr [105;100;108;101]].
+  python_outputs w_chain [0%nat; 0%nat] = Some [VList [VInt 1; VInt 0; VInt 1; VInt 0]; VInt 4; VStr [105;100;108;101]] /\
+  (* the same chain followed by a fold of the re-assigned name (finding F-C03-stale-reassign-in-branch): inside the guard
+     now, the length is read at run time on each of the three paths *)
+  is_fresh (w_chain ++ [SObs (OLen n_msg)]) = true /\
+  firmware_outputs (w_chain ++ [SObs (OLen n_msg)]) [1%nat] = python_outputs (w_chain ++ [SObs (OLen n_msg)]) [1%nat] /\
+  firmware_outputs (w_chain ++ [SObs (OLen n_msg)]) [0%nat; 1%nat] = python_outputs (w_chain ++ [SObs (OLen n_msg)]) [0%nat; 1%nat] /\
+  python_outputs (w_chain ++ [SObs (OLen n_msg)]) [0%nat; 1%nat] =
+    Some [VList [VInt 1; VInt 0; VInt 1; VInt 0]; VInt 7; VStr [119;97;114;109;105;110;103]; VInt 7].
 Proof. vm_compute. repeat split; reflexivity. Qed.
 
-(* the same chain followed by a fold of the re-assigned name is outside the guard (finding F-C03-stale-reassign-in-branch) *)
-Lemma chain_then_fold_outside : flow_ok (w_chain ++ [SObs (OLen n_msg)]) = false.
-Proof. vm_compute. reflexivity. Qed.
-
-(* a list appended in the first branch is shared with the snapshot of the second (the store is not copied) *)
+(* every branch gets its own copy of the tracked lists: a list appended in the first branch is NOT seen by the sibling
+   branch (the sibling form of finding F-C03-shared-list-append) *)
 Definition w_sibling_list : list stmt :=
   [ SAssign n_pat (EList [EInt 1; EInt 0]);
     SIf [SAppend n_pat (EInt 1)] [SObs (OFlash n_pat)] ].
-Lemma sibling_list_refuted :
-  firmware_outputs w_sibling_list [0%nat] = Some [VList [VInt 1; VInt 0; VInt 1]] /\
-  python_outputs w_sibling_list [0%nat] = Some [VList [VInt 1; VInt 0]] /\ flow_ok w_sibling_list = false.
+Lemma sibling_list_repaired :
+  firmware_outputs w_sibling_list [0%nat] = Some [VList [VInt 1; VInt 0]] /\
+  python_outputs w_sibling_list [0%nat] = Some [VList [VInt 1; VInt 0]] /\ is_fresh w_sibling_list = true.
 Proof. vm_compute. repeat split; reflexivity. Qed.
 
 (* def pad(msg): mon.write(len(msg)); mon.write(len(s))   with module constants msg and s: the parameter is unknown *)
 Definition w_def_prefix : list stmt := [SAssign n_msg (EStr [105;100;108;101]); SAssign n_s (EStr [97;98])].
 Definition w_def_body : list stmt := [SObs (OLen n_msg); SObs (OLen n_s); SAssign n_q (EStr [120]); SObs (OLen n_q)].
 Lemma def_nonvacuous :
-  def_ok w_def_prefix [n_msg] w_def_body [SAssign n_v (EInt 1)] = true /\
+  def_ok w_def_prefix [n_msg] w_def_body [SAssign n_v (EInt 1)] [] = true /\
   python_call_outputs w_def_prefix [n_msg] w_def_body [SAssign n_v (EInt 1)] [VStr [97;98;99;100;101;102;103]] [] =
     Some ([], [VInt 7; VInt 2; VInt 1]) /\
-  python_call_outputs w_def_prefix [n_msg] w_def_body [SAssign n_v (EInt 1)] [VList [VInt 1]] [] = Some ([], [VInt 1; VInt 2; VInt 1]).
+  python_call_outputs w_def_prefix [n_msg] w_def_body [SAssign n_v (EInt 1)] [VList [VInt 1]] [] = Some ([], [VInt 1; VInt 2; VInt 1]) /\
+  (* len(s) of the module constant s (bound once) and len(q) of the local are folded into the body, len(msg) is not *)
+  option_map (fun r => match r with (_, rb, _) => rb end) (tdef w_def_prefix [n_msg] w_def_body [SAssign n_v (EInt 1)] []) =
+    Some [SObs (OLen n_msg); SEmit (VInt 2); SAssign n_q (EStr [120]); SEmit (VInt 1)].
 Proof. vm_compute. repeat split; reflexivity. Qed.
 
-(* a module constant folded into the body at the def is stale when the module re-assigns it before the call *)
-Lemma def_time_global_refuted :
-  firmware_call_outputs w_def_prefix [n_q] [SObs (OLen n_s)] [SAssign n_s (EStr [97;98;99;100;101;102])] [VInt 0] [] = Some ([], [VInt 2]) /\
+(* s = 'ab'; def f(q): mon.write(len(s)); s = 'abcdef'; f(0)   (finding F-C03-def-time-global): s is bound at two sites
+   of the script, so the body reads its length at run time - 6, as Python; inside the guard.  The same holds when the
+   second assignment comes AFTER the call (only the number of binding sites counts): conservative *)
+Lemma def_time_global_repaired :
+  firmware_call_outputs w_def_prefix [n_q] [SObs (OLen n_s)] [SAssign n_s (EStr [97;98;99;100;101;102])] [] [VInt 0] [] = Some ([], [VInt 6]) /\
   python_call_outputs w_def_prefix [n_q] [SObs (OLen n_s)] [SAssign n_s (EStr [97;98;99;100;101;102])] [VInt 0] [] = Some ([], [VInt 6]) /\
-  def_ok w_def_prefix [n_q] [SObs (OLen n_s)] [SAssign n_s (EStr [97;98;99;100;101;102])] = false /\
-  def_ok w_def_prefix [n_q] [SObs (OLen n_s)] [] = true.
+  def_ok w_def_prefix [n_q] [SObs (OLen n_s)] [SAssign n_s (EStr [97;98;99;100;101;102])] [] = true /\
+  option_map (fun r => match r with (_, rb, _) => rb end)
+    (tdef w_def_prefix [n_q] [SObs (OLen n_s)] [SAssign n_s (EStr [97;98;99;100;101;102])] []) = Some [SObs (OLen n_s)] /\
+  option_map (fun r => match r with (_, rb, _) => rb end)
+    (tdef w_def_prefix [n_q] [SObs (OLen n_s)] [] [SAssign n_s (EStr [97;98;99;100;101;102])]) = Some [SObs (OLen n_s)] /\
+  option_map (fun r => match r with (_, rb, _) => rb end) (tdef w_def_prefix [n_q] [SObs (OLen n_s)] [] []) = Some [SEmit (VInt 2)].
 Proof. vm_compute. repeat split; reflexivity. Qed.
 
-(* len(name) inside a right-hand side is a fold site of the flow guard: after a branch that re-assigns s the
-   transpiler's environment still gives len(s) = 2, the ghost environment leaves it to run time *)
+(* what a function body writes is volatile at module level from the def on: pat = [1, 0]; def f(q): pat.append(q);
+   then pat = [1] and mon.write(len(pat)) at module level - the length is read at run time (the function may have run) *)
+Lemma def_written_is_volatile :
+  option_map (fun r => match r with (_, _, rm) => rm end)
+    (tdef [SAssign n_pat (EList [EInt 1; EInt 0])] [n_q] [SAppend n_pat (EName n_q)]
+          [SObs (OLen n_pat); SAssign n_pat (EList [EInt 1]); SObs (OLen n_pat)] []) =
+    Some [SObs (OLen n_pat); SAssign n_pat (EList [EInt 1]); SObs (OLen n_pat)] /\
+  def_ok [SAssign n_pat (EList [EInt 1; EInt 0])] [n_q] [SAppend n_pat (EName n_q)]
+         [SObs (OLen n_pat); SAssign n_pat (EList [EInt 1]); SObs (OLen n_pat)] [] = true.
+Proof. vm_compute. repeat split; reflexivity. Qed.
+
+(* len(name) inside a right-hand side: after a branch that re-assigns s the environment no longer knows s, so the
+   translation of  q = len(s) + 1  reads the length at run time (the model keeps right-hand sides symbolic; what the real
+   translation folds inside them is justified by C03_literal_length_sound and C03_env_agrees) *)
 Definition w_rhs_len (branch : list stmt) : list stmt :=
   [ SAssign n_s (EStr [97;98]); SIf branch [];
     SAssign n_q (EBin Add (ECall n_len [EName n_s] []) (EInt 1)); SObs (OVal n_q) ].
 Lemma rhs_len_fold_site :
-  flow_ok (w_rhs_len [SAssign n_s (EStr [97;98;99;100])]) = false /\
-  flow_ok (w_rhs_len [SAssign n_msg (EStr [97;98;99;100])]) = true /\
-  python_outputs (w_rhs_len [SAssign n_msg (EStr [97;98;99;100])]) [1%nat] = Some [VInt 3].
+  is_fresh (w_rhs_len [SAssign n_s (EStr [97;98;99;100])]) = true /\
+  python_outputs (w_rhs_len [SAssign n_s (EStr [97;98;99;100])]) [1%nat] = Some [VInt 5] /\
+  firmware_outputs (w_rhs_len [SAssign n_s (EStr [97;98;99;100])]) [1%nat] = Some [VInt 5] /\
+  firmware_outputs (w_rhs_len [SAssign n_s (EStr [97;98;99;100])]) [0%nat] = Some [VInt 3].
 Proof. vm_compute. repeat split; reflexivity. Qed.
